@@ -14,7 +14,7 @@ from typing import Optional, Tuple
 INERT_MODULE_PREFIXES = (
     "ast.", "pickletools.", "struct.", "re.", "json.", "io.", "collections.", "enum.", "abc.", "typing.", "argparse.",
     "stdlib_list.", "astunparse.", "warnings.", "itertools.", "functools.", "operator.", "string.", "textwrap.", "math.",
-    "dataclasses.", "copy.", "types.", "contextlib.", "logging.", "sys.stderr.", "sys.stdout.", "sys.stdin.", "os.path.",
+    "dataclasses.", "copy.", "_compat_pickle.", "keyword.", "sysconfig.get_path", "sysconfig.get_paths", "types.", "contextlib.", "logging.", "sys.stderr.", "sys.stdout.", "sys.stdin.", "os.path.",
     "object.", "Exception.", "ValueError.", "binascii.", "base64.", "hashlib.", "zlib.",
 )
 INERT_EXACT = {
